@@ -192,11 +192,16 @@ def fmt_rule(ctx: Ctx) -> None:
     hx_assigns = {n.targets[0].id: n.value for n in hx.node.body if isinstance(n, ast.Assign) and isinstance(n.targets[0], ast.Name)}
     for n in WIDTHS:
         fold = Folder(m, mod, None, {nn: Val(n)})
-        try:
-            u = Evaluator({num: Form.var("x")}, fold).ev(assigns["unsigned_number"])
-        except Inconclusive as exc:
-            raise AnalysisError(f"R17.fmt: unsigned_number outside the bit-slice domain: {exc}")
-        r.check(u == Form.field("x", 0, n), f"n={n}|mask", f.loc(), f"for n={n} the value is reduced to {u.describe()} instead of its low {n} bits")
+        arms = [assigns["unsigned_number"]]
+        while any(isinstance(a, ast.IfExp) for a in arms):  # a conditional reduction must reduce correctly on every arm
+            arms = [b for a in arms for b in ((a.body, a.orelse) if isinstance(a, ast.IfExp) else (a,))]
+        for arm in arms:
+            try:
+                u = Evaluator({num: Form.var("x")}, fold).ev(arm)
+            except Inconclusive as exc:
+                raise AnalysisError(f"R17.fmt: unsigned_number outside the bit-slice domain: {exc}")
+            r.check(u == Form.field("x", 0, n), f"n={n}|mask", f.loc(), f"for n={n} the value is reduced to {u.describe()} (`{ast.unparse(arm)}`) "
+                    f"instead of its low {n} bits (two's complement for negative and over-wide inputs)")
         sg = assigns["signed_number"]
         ok = False
         if isinstance(sg, ast.IfExp) and isinstance(sg.test, ast.Compare) and len(sg.test.ops) == 1:
